@@ -33,6 +33,19 @@ PROPS = {
         },
         "assumptions": COMMON_ASSUME + STR_STUBS,
     },
+    "C02": {
+        "groups": [{"name": "json", "tags": "verif", "run": "^VH_C02_", "flags": {"harness-timeout": 280},
+                    "quick": {"params": "strlen=2"}, "thorough": {"params": "strlen=3", "harness-timeout": 3000}}],
+        "level": "model_checking",
+        "bounds": {
+            "text": "strings and []byte of 0..2 (thorough 3) symbolic bytes: the encoder output, decoded by the harness's own unescaper, equals the input with every invalid UTF-8 byte replaced by U+FFFD (own RFC 3629 recogniser, independent of unicode/utf8); AppendBytes == AppendString; keys like values; hex nibbles",
+            "numbers": "every integer width over its full range: the token is the decimal rendering of the correctly sign-/zero-extended value (strconv digits trusted); float32/float64 over all bit patterns: NaN/+Inf/-Inf strings, format choice and exponent clean-up equal to encoding/json's rule transcribed in the harness (float32 cut-offs evaluated in float32), explicit precision -> 'f' with that precision",
+            "time": "format dispatch for the five TimeFieldFormat classes; integer and float durations, TimeDiff clamping; Times/Durs element-wise",
+            "relational": "the same symbolic value through Event, Context, Array, Dict, Fields(slice), Fields(map), pointer arm and slice variant for string, bool, every integer width, float32/64 (symbolic precision), time, duration (symbolic unit/flags)",
+            "outside": "decimal digit correctness of strconv and layout formatting of package time are trusted; IP/MAC/prefix text forms are produced by package net (stubbed); strings beyond the bound",
+        },
+        "assumptions": COMMON_ASSUME + STR_STUBS,
+    },
     "C03": {
         "groups": [{"name": "json", "tags": "verif", "run": "^VH_C03_", "flags": {"harness-timeout": 280},
                     "quick": {"params": "depth=2"}, "thorough": {"params": "depth=4", "harness-timeout": 3000, "max-paths": 5000000}}],
@@ -53,6 +66,14 @@ PROPS = {
             "outside": "goroutine interleavings (reduced to the ownership lemmas and C06), trees deeper than 2 derivations (covered by the one-step lemmas from an arbitrary parent)",
         },
         "assumptions": COMMON_ASSUME + ["sync.Pool modelled as a LIFO free list; pool states are reached by real preludes (so they replay natively)", "context.WithValue/Value executed from their real SSA (reflectlite.TypeOf(key).Comparable() stubbed true)"],
+    },
+    "C06": {
+        "groups": [{"name": "json", "tags": "verif", "run": "^VH_C06_"}],
+        "level": "other",
+        "engine_only_kinds": ["use-after-put", "double-put"],
+        "explanation": "Thread-modular ownership protocol decided by symbolic execution of every finalizer path (not schedule exploration): O1 each pooled object is returned at most once and no field of it is accessed afterwards (the engine marks objects released at Put and checks every later field access in zerolog code); O3 exactly one write per event, complete line, event still owned during the write and pooled after it; O4 consuming a Dict/Array copies its bytes (backing-array identity); O5 buffers above 64 KiB are not pooled; O7 SyncWriter holds its mutex around the inner call and releases it on the panic path. Given sync.Pool's contract these imply each goroutine builds and writes its event in memory no other goroutine touches. Goroutine interleavings, data races on configuration globals and blocking writers are outside the claim.",
+        "bounds": {"paths": "2 logger shapes x 6 event bodies (nested Dict/Array/Object/Fields/Errs) x 4 finalizers; write-error and ErrorHandler paths; SyncWriter over plain and level writers x Write/WriteLevel/Close x panicking or not"},
+        "assumptions": COMMON_ASSUME + ["sync.Pool modelled as a LIFO free list; use-after-put and double-put are observed by the engine only (they cannot be confirmed by native replay and are reported without it)"],
     },
     "C08": {
         "groups": [{"name": "cbor", "tags": "verif", "run": "^VH_C08_", "flags": {"harness-timeout": 280},
@@ -144,6 +165,17 @@ NOT_APPLICABLE = [
 ]
 
 MANIFEST_TEXT = {
+    "C02": {
+        "level_text": "Bounded model checking of semantic round trips and of relational equality between entry points on the real encoder: values are symbolic over their full width, the reference decoders/renderers are short Go functions in the harness executed symbolically alongside the implementation, and the solver decides equality for every value within the bounds.",
+        "design_ref": "DESIGN.md §3 C02",
+        "level_note": "Numeric tokens are opaque (an uninterpreted function of the value): what is decided is which value, width, signedness, format and precision reach strconv, not strconv's digits. Strings <= 2-3 bytes.",
+    },
+    "C06": {
+        "level_text": "Not schedule exploration: the property quantifies over interleavings, which this technique cannot encode for sync.Pool internals and user writers. What is decided, by symbolic execution of the real finalizer and consumer paths, is the ownership protocol (linearity of pooled objects, single complete write, copy-on-consume, pool size cap, mutex bracketing) from which schedule-independence follows given sync.Pool's contract.",
+        "design_ref": "DESIGN.md §3 C06",
+        "level_note": "Level 'other': reduced scope. Data races on configuration globals, writers that block, fairness: not claimed.",
+        "technique": "symbolic execution of the real go/ssa with an engine-side ownership monitor (released-object tracking, backing-array identity, mutex state) + SMT (z3)",
+    },
     "C03": {
         "level_text": "Bounded model checking / exhaustive bounded exploration of the real newEvent/msg/hook code: for every derivation chain, hook behaviour, entry point and finalizer within the bound, the written line is parsed and its top-level key sequence must equal level, context fields (root first), event fields, hook fields, message; the hook log must show each hook once, ancestors first, with the final message and the event's level.",
         "design_ref": "DESIGN.md §3 C03",
